@@ -992,7 +992,15 @@ fn filter_fixed_size_binary(
 
     let nulls = predicate.filter_nulls(array.nulls());
 
-    FixedSizeBinaryArray::new(array.value_length(), buffer.into(), nulls)
+    // Pass the length explicitly: it cannot be derived from the (empty) values
+    // buffer when `value_length` is zero
+    FixedSizeBinaryArray::try_new_with_len(
+        array.value_length(),
+        buffer.into(),
+        nulls,
+        predicate.count,
+    )
+    .expect("filtered values and nulls have `count` entries")
 }
 
 /// `filter` implementation for dictionaries
@@ -2388,5 +2396,25 @@ mod tests {
         let predicate = BooleanArray::from(vec![false; 9]);
         let filter = FilterBuilder::new(&predicate).build();
         filter_native(&values, &filter);
+    }
+
+    #[test]
+    fn test_filter_zero_width_fixed_size_binary() {
+        // the length of a FixedSizeBinary(0) array is not recoverable from its buffers
+        let array =
+            FixedSizeBinaryArray::try_new_with_len(0, Buffer::from_vec(Vec::<u8>::new()), None, 5)
+                .unwrap();
+        let predicate = BooleanArray::from(vec![true, false, true, true, false]);
+        let result = filter(&array, &predicate).unwrap();
+        assert_eq!(result.len(), 3);
+        assert_eq!(result.data_type(), &DataType::FixedSizeBinary(0));
+        result.to_data().validate_full().unwrap();
+
+        // as dictionary values (what `garbage_collect_dictionary` filters)
+        let keys = Int8Array::from(vec![0, 2, 2]);
+        let dict = DictionaryArray::new(keys, Arc::new(array));
+        let gc = crate::dictionary::garbage_collect_dictionary(&dict).unwrap();
+        assert_eq!(gc.len(), 3);
+        assert_eq!(gc.values().len(), 2);
     }
 }
